@@ -27,6 +27,8 @@ type c19Case struct {
 }
 
 var c19Invalid = map[string]string{
+	"html": "<!doctype html>\n<title> t </title>\n<p>  some   text &amp; more </p>\n<script> var = ; ( </script>\n<p> after </p>\n",
+	"htm":  "<p> a   b </p><script>function ( {</script>",
 	"js":   "function ( { ;;; ) ) \n var = 3",
 	"mjs":  "export default ( ;",
 	"json": "{ \"a\" : , }",
@@ -37,7 +39,7 @@ func genTree(r *core.Rand) []treeFile {
 	if r.Chance(1, 3) {
 		dirs = append(dirs, "src/.hid/")
 	}
-	exts := []string{"js", "css", "html", "json", "svg", "xml", "js", "css", "html", "htm", "mjs", "webmanifest", "tmpl", "txt", "bin", "md"}
+	exts := []string{"js", "css", "html", "json", "svg", "xml", "js", "css", "html", "htm", "mjs", "webmanifest", "tmpl", "txt", "bin", "md", "tpl"}
 	bases := []string{"app", "app", "main", "index", "data", "x", "lib.min", "a b", "ünï"}
 	seen := map[string]bool{}
 	var files []treeFile
@@ -292,6 +294,10 @@ func genInvocation(r *core.Rand, files []treeFile) cliInv {
 		}
 		v.Output = dir
 	}
+	if r.Chance(1, 8) && v.Type == "" {
+		// extension mapping: a short type name or a media type, for an unknown and for a known extension
+		v.Ext = map[string]string{r.Pick([]string{"txt", "md", "bin", "tpl", "js", "htm"}): r.Pick([]string{"html", "js", "css", "text/html", "application/json", "text/css"})}
+	}
 	if r.Chance(1, 5) {
 		v.All = true
 	}
@@ -364,6 +370,15 @@ func c19Fixed() []c19Case {
 		Inv: cliInv{Inputs: []string{"b.css"}, Output: "b.css"}})
 	cs = append(cs, c19Case{Name: "existing-bak-sibling-dir", Files: []treeFile{{Path: "w/b.css", Data: css}, {Path: "w/b.css.bak", Data: "the user's own backup"}, {Path: "w/c.js", Data: js}},
 		Inv: cliInv{Inputs: []string{"w/"}, Output: "w/", Recursive: true}})
+	add("ext-short-name", cliInv{Inputs: []string{"src/"}, Recursive: true, Output: "out/", Ext: map[string]string{"txt": "html"}})
+	add("ext-media-type", cliInv{Inputs: []string{"src/"}, Recursive: true, Output: "out/", Ext: map[string]string{"txt": "text/css"}})
+	plainTree := []treeFile{{Path: "src/app.js", Data: js}, {Path: "src/sub/readme.txt", Data: "read  me"}, {Path: "src/sub/pic.png", Data: "\x89PNG\r\n"}, {Path: "src/sub/b.css", Data: css}}
+	cs = append(cs, c19Case{Name: "sync-onto-itself-absolute", Files: plainTree, Inv: cliInv{Inputs: []string{"$ROOT/src"}, Recursive: true, Sync: true, Output: "."}})
+	cs = append(cs, c19Case{Name: "sync-onto-itself-dotslash", Files: plainTree, Inv: cliInv{Inputs: []string{"./src/"}, Recursive: true, Sync: true, Output: "src/"}})
+	cs = append(cs, c19Case{Name: "sync-onto-itself-absolute-out", Files: plainTree, Inv: cliInv{Inputs: []string{"src/"}, Recursive: true, Sync: true, Output: "$ROOT/src/"}})
+	add("in-place-absolute", cliInv{Inputs: []string{"$ROOT/src/app.js"}, Output: "src/app.js"})
+	cs = append(cs, c19Case{Name: "in-place-html-failing-script", Files: []treeFile{{Path: "p.html", Data: c19Invalid["html"]}, {Path: "q.html", Data: html}},
+		Inv: cliInv{Inputs: []string{"p.html", "q.html"}, Output: "."}})
 	add("many-to-stdout-rejected", cliInv{Inputs: []string{"src/app.js", "src/app.css"}})
 	add("flags-js", cliInv{Inputs: []string{"src/app.js"}, Flags: []string{"--js-keep-var-names"}})
 	add("flags-html", cliInv{Inputs: []string{"src/app.html"}, Flags: []string{"--html-keep-document-tags", "--html-keep-end-tags"}})
@@ -381,8 +396,17 @@ type c19Witness struct {
 	Stderr string     `json:"stderr"`
 }
 
+// cliArgsAt substitutes the scratch root for the $ROOT placeholder (absolute spellings of paths in the tree).
+func cliArgsAt(root string, args []string) []string {
+	out := make([]string, len(args))
+	for i, a := range args {
+		out[i] = strings.ReplaceAll(a, "$ROOT", root)
+	}
+	return out
+}
+
 func runCLI(root string, v cliInv) (rc int, stdout, stderr []byte, err error) {
-	cmd := exec.Command(os.Getenv("MINIFY_BIN"), v.Args()...)
+	cmd := exec.Command(os.Getenv("MINIFY_BIN"), cliArgsAt(root, v.Args())...)
 	cmd.Dir = root
 	var so, se bytes.Buffer
 	cmd.Stdout, cmd.Stderr = &so, &se
